@@ -86,7 +86,13 @@ def replay_behaviour(ctx, st, origin, npc, fallback_every=0, counter=[0]):
         l = h['l']
         op = str(l['op'])
         counter[0] += 1
-        fb = bool(fallback_every and op == 'svd' and l['res'] == 'ok' and counter[0] % fallback_every == 0)
+        # gesdd-failure -> gesvd fallback of svd_robust: every `fallback_every`-th svd, and two of three svd calls whose operand
+        # has a leg not blocked by charge (npc.svd then works on an internal copy and allows LAPACK to overwrite it;
+        # row / column vector blocks are Fortran-contiguous, so the overwrite really happens)
+        fb = False
+        if op == 'svd' and l['res'] == 'ok' and fallback_every:
+            nonblocked = any(not leg.is_blocked() for leg in B.A.legs)
+            fb = counter[0] % fallback_every == 0 or (nonblocked and counter[0] % 3 != 0)
         r = F.run_case(B, ana, l, npc, force_fallback=fb)
         key = hashlib.blake2b(repr((st['T'], l)).encode(), digest_size=10).hexdigest()
         ctx.case(key, action='Factor.' + op + ('[gesvd-fallback]' if fb else ''))
